@@ -691,7 +691,28 @@ def do_symterms(req):
     return {'status': 'ok', 'out': out}
 
 
-HANDLERS = {'symterms': do_symterms, 'parsehead': do_parsehead, 'strloc': do_strloc, 'locations': do_locations, 'headtheory': do_headtheory, 'intervalset': do_intervalset, 'theory': do_theory, 'history': do_history, 'solve': do_solve, 'transform': do_transform, 'loop': do_loop, 'pyparse': do_pyparse, 'gparse': do_gparse}
+def do_headterms(req):
+    """for every term text t: the argument the atom p(t) of a HEAD formula is derived with (`&tel { p(t) }.` in the initial part, grounded at step 0):
+    the symbol, 'raises' (RuntimeError), 'undefined' (gringo drops the instance: no atom p)"""
+    out = []
+    for t in req['terms']:
+        prg = clingo.Control(['0'], message_limit=0)
+        try:
+            with ProgramBuilder(prg) as bld:
+                tf.transform(['#program initial.\n&tel { p(%s) }.\n' % t], bld.add)
+            prg.ground([('initial', [clingo.Number(0), clingo.Number(0)]), ('always', [clingo.Number(0), clingo.Number(0)])])
+        except RuntimeError as e:
+            out.append('raises')
+            continue
+        except Exception as e:  # noqa
+            out.append('internal:' + type(e).__name__)
+            continue
+        got = sorted(str(a.symbol.arguments[0]) for a in prg.symbolic_atoms if a.symbol.name == 'p' and len(a.symbol.arguments) == 2)
+        out.append(got[0] if len(got) == 1 else ('undefined' if not got else 'several:' + ','.join(got)))
+    return {'status': 'ok', 'out': out}
+
+
+HANDLERS = {'headterms': do_headterms, 'symterms': do_symterms, 'parsehead': do_parsehead, 'strloc': do_strloc, 'locations': do_locations, 'headtheory': do_headtheory, 'intervalset': do_intervalset, 'theory': do_theory, 'history': do_history, 'solve': do_solve, 'transform': do_transform, 'loop': do_loop, 'pyparse': do_pyparse, 'gparse': do_gparse}
 
 
 def main():
